@@ -232,6 +232,67 @@ def run(tier, seed, rng):
                 failures.append(dict(kind='oracle', sig='descriptor-hooks', what='described fields: pack() of a constructed packet differs between generated and generic code',
                                      options=dict(zip(('generate_for_pack', 'generate_for_unpack', 'vectorize', 'annotate'), all_combos[ci])),
                                      case=dcases[base + ci * 3 + j], observed=b, required=a))
+    # ---- EMBEDDED references (Ref(..., embed=True): a field that packs and unpacks nothing, the referenced packet's fields are
+    # borrowed in its place) between looped fields (variable-size strings, rare integer sizes, positioned fields), between fixed
+    # struct fields, first / last / two in a row: every option combination against the all-generic one
+    esrc = ""
+    ekinds = ('EMsg', 'EOdd', 'EAl', 'EFix', 'ETwo', 'EEdge')
+    for ci, (gp, gu, vec, ann) in enumerate(all_combos):
+        conf = dict(generate_for_pack=gp, generate_for_unpack=gu, vectorize=vec, annotate=ann)
+        c = f"    __bisturi__ = {conf!r}\n"
+        esrc += (f"class EHd{ci}(Packet):\n{c}    name = Data(until_marker=b'\\0')\n    kind = Int(1)\n"
+                 f"class EMsg{ci}(Packet):\n{c}    tag = Data(until_marker=b':')\n    header = Ref(EHd{ci}, embed=True)\n    body = Int(2)\n"
+                 f"class EPt{ci}(Packet):\n{c}    x = Int(3)\n    y = Int(1)\n"
+                 f"class EOdd{ci}(Packet):\n{c}    a = Int(3)\n    p = Ref(EPt{ci}, embed=True)\n    z = Int(3)\n    t = Int(2)\n"
+                 f"class EPa{ci}(Packet):\n{c}    u = Int(1).aligned(4)\n    v = Int(1)\n"
+                 f"class EAl{ci}(Packet):\n{c}    a = Int(1).at(1)\n    p = Ref(EPa{ci}, embed=True)\n    z = Int(1).at(7)\n"
+                 f"class EXY{ci}(Packet):\n{c}    x = Int(1)\n    y = Int(1)\n"
+                 f"class EFix{ci}(Packet):\n{c}    w = Int(1)\n    p = Ref(EXY{ci}(x=1, y=2), embed=True)\n    z = Int(1)\n"
+                 f"class ETwo{ci}(Packet):\n{c}    s = Data(until_marker=b';')\n    p = Ref(EHd{ci}, embed=True)\n    q = Ref(EPt{ci}, embed=True)\n    e = Data(until_marker=b';')\n"
+                 f"class EEdge{ci}(Packet):\n{c}    p = Ref(EHd{ci}, embed=True)\n    m = Int(3)\n    q = Ref(EXY{ci}, embed=True)\n")
+    einputs = {'EMsg': [b'ab:john\x00\x07\x01\x02', b':\x00\x00\x00\x00', b'ab:john\x00\x07\x01', b'ab:john', b'abjohn\x00\x07\x01\x02', b''],
+               'EOdd': [bytes(range(1, 13)), bytes(range(1, 12)), bytes(range(1, 7)), b'\x01'],
+               'EAl': [bytes(range(10, 18)), bytes(range(10, 17)), bytes(range(10, 15))],
+               'EFix': [b'\x09\x08\x07\x06', b'\x09\x08\x07', b''],
+               'ETwo': [b's;nm\x00\x05\x01\x02\x03\x04e;', b';\x00\x05\x01\x02\x03\x04;', b's;nm\x00\x05\x01\x02\x03\x04e', b's;nm\x00\x05\x01\x02'],
+               'EEdge': [b'nm\x00\x05\x01\x02\x03\x08\x09', b'\x00\x05\x01\x02\x03\x08', b'nm\x00\x05\x01']}
+    evalues = {'EMsg': "EMsg{ci}(tag=b'ab', name=b'john', kind=7, body=258)", 'EOdd': "EOdd{ci}(a=1, x=2, y=3, z=4, t=5)", 'EAl': "EAl{ci}(a=1, u=2, v=3, z=4)",
+               'EFix': "EFix{ci}(w=9, z=6)", 'ETwo': "ETwo{ci}(s=b's', name=b'nm', kind=5, x=66051, y=4, e=b'e')", 'EEdge': "EEdge{ci}(name=b'nm', kind=5, m=66051, x=8, y=9)"}
+    ecases = [dict(cls=f"{k}{ci}", op='roundtrip', raw=raw.hex(), offset=off) for ci in range(len(all_combos)) for k in ekinds for raw in einputs[k] for off in (0,)] + \
+             [dict(cls=f"{k}{ci}", op='pack', value={"py": evalues[k].format(ci=ci)}) for ci in range(len(all_combos)) for k in ekinds]
+    eres = run_impl(os.path.join(VERIF, 'harness', 'impl_pkt.py'), dict(header=decl.HEADER_PY, blocks=[dict(name='embedded', src=esrc)], modname='c03e', cases=ecases))
+    dist['embedded_reference_cases'] = len(ecases)
+    import re as _re3
+    def estrip(o):
+        if isinstance(o, dict) and 'err' in o:
+            o = {'err': o['err']}
+        if isinstance(o, dict) and isinstance(o.get('packed'), dict) and 'err' in o['packed']:
+            o = dict(o, packed={'err': o['packed']['err']})
+        return _re3.sub(r'(E[A-Za-z]+?)\d+', r'\1', json.dumps(o, sort_keys=True))
+    n_rt = sum(len(einputs[k]) for k in ekinds)
+    refi = ref_i_of(all_combos)
+    for ci in range(len(all_combos)):
+        for j in range(n_rt):
+            a, b = eres['outcomes'][refi * n_rt + j], eres['outcomes'][ci * n_rt + j]
+            if estrip(a) != estrip(b):
+                failures.append(dict(kind='oracle', sig='embedded-reference', what='a packet with an embedded reference (Ref(..., embed=True)): generated and generic code behave differently',
+                                     options=dict(zip(('generate_for_pack', 'generate_for_unpack', 'vectorize', 'annotate'), all_combos[ci])), classes=esrc.split(f'class EHd{ci + 1}(')[0].split(f'class EHd{ci}(')[-1].join([f'class EHd{ci}(', '']),
+                                     cls=ecases[ci * n_rt + j]['cls'], raw=ecases[ci * n_rt + j]['raw'], offset=0, observed=b, required=a))
+        base = len(all_combos) * n_rt
+        for j in range(len(ekinds)):
+            a, b = eres['outcomes'][base + refi * len(ekinds) + j], eres['outcomes'][base + ci * len(ekinds) + j]
+            if estrip(a) != estrip(b):
+                failures.append(dict(kind='oracle', sig='embedded-reference', what='a packet with an embedded reference: pack() of a constructed packet differs between generated and generic code',
+                                     options=dict(zip(('generate_for_pack', 'generate_for_unpack', 'vectorize', 'annotate'), all_combos[ci])), classes=esrc.split(f'class EHd{ci + 1}(')[0].split(f'class EHd{ci}(')[-1].join([f'class EHd{ci}(', '']),
+                                     cls=ecases[base + ci * len(ekinds) + j]['cls'], value=ecases[base + ci * len(ekinds) + j]['value']['py'], observed=b, required=a))
+    # the all-generic reference itself: the documented meaning on the valid inputs
+    for k, want in (('EMsg', dict(tag='6162', name='6a6f686e', kind=7, body=258)), ('EFix', dict(w=9, x=8, y=7, z=6))):
+        j = sum(len(einputs[kk]) for kk in ekinds[:ekinds.index(k)])
+        o = eres['outcomes'][refi * n_rt + j]
+        got = {n: (v['x'] if isinstance(v, dict) and 'x' in v else v) for n, v in (o.get('ok', {}).get('f') or [])}
+        if 'ok' not in o or any(got.get(n) != v for n, v in want.items()) or o.get('packed', {}).get('ok') != einputs[k][0].hex():
+            failures.append(dict(kind='oracle', sig='embedded-reference-meaning', what=f"generic code: the fields of an embedded reference are read in its place: expected {want} and the same bytes back",
+                                 classes=esrc.split('class EHd1(')[0], cls=f"{k}{refi}", raw=einputs[k][0].hex(), offset=0, observed=o))
     inputs = [bytes([5, 65, 66, 67, 68, 69, 70, 71, 72, 73, 74, 75]), bytes([3, 1, 2, 3, 4, 5, 6, 7, 8]), bytes([9, 9, 4, 80, 81, 82, 83, 84, 85, 86, 87, 88]),
               bytes([2, 7, 7, 7, 7, 7, 7]), bytes([1]), b'']
     zcases = [dict(cls=f"{k}{ci}", op='roundtrip', raw=raw.hex(), offset=off)
